@@ -141,21 +141,41 @@ func (s *Storage) EncryptionKeysPath() string {
 	return path.Join(encryptionKeysPath, "keys")
 }
 
+// scheduleConfigKey builds the storage key of a scheduler config. Part of the name can be chosen by
+// the client (scatter-range-<range name>); a name that path cleaning alters (here or in the etcd
+// backend), e.g. "scatter-range-x/../../raft", would address another key such as the cluster meta.
+func scheduleConfigKey(scheduleName string) (string, error) {
+	key := path.Join(customScheduleConfigPath, scheduleName)
+	if scheduleName != "" && key != customScheduleConfigPath+"/"+scheduleName {
+		return "", errors.Errorf("invalid scheduler name %q", scheduleName)
+	}
+	return key, nil
+}
+
 // SaveScheduleConfig saves the config of scheduler.
 func (s *Storage) SaveScheduleConfig(scheduleName string, data []byte) error {
-	configPath := path.Join(customScheduleConfigPath, scheduleName)
+	configPath, err := scheduleConfigKey(scheduleName)
+	if err != nil {
+		return err
+	}
 	return s.Save(configPath, string(data))
 }
 
 // RemoveScheduleConfig removes the config of scheduler.
 func (s *Storage) RemoveScheduleConfig(scheduleName string) error {
-	configPath := path.Join(customScheduleConfigPath, scheduleName)
+	configPath, err := scheduleConfigKey(scheduleName)
+	if err != nil {
+		return err
+	}
 	return s.Remove(configPath)
 }
 
 // LoadScheduleConfig loads the config of scheduler.
 func (s *Storage) LoadScheduleConfig(scheduleName string) (string, error) {
-	configPath := path.Join(customScheduleConfigPath, scheduleName)
+	configPath, err := scheduleConfigKey(scheduleName)
+	if err != nil {
+		return "", err
+	}
 	return s.Load(configPath)
 }
 
